@@ -33,7 +33,7 @@ CLAIMS = {
                 tech='Verus on extracted OrderMap read side + Kani bounded proof harnesses + K-snippet of the map-literal arm',
                 ref='DESIGN.md §5 C13, §11'),
     'C14': dict(cat='other',
-                text='css::Value::is_true (false exactly for false/null), the `not` arm of the evaluator and the and/or branches of sass::BinOp::eval and Operator::eval — the latter three as statement ranges extracted from /repo each run, with the recursive operand evaluation replaced by a probe that records calls — for one representative payload per value constructor without nested values (bounded): value selection, right operand evaluated exactly when needed, left exactly once.',
+                text='css::Value::is_true (false exactly for false/null), the `not` arm of the evaluator and the and/or branches of sass::BinOp::eval and Operator::eval — the latter three as statement ranges extracted from /repo each run, with the recursive operand evaluation replaced by a probe that records calls — for one representative payload per value constructor without nested values (bounded): value selection, right operand evaluated exactly when needed, left exactly once; the inline if() function yields its second argument exactly when the condition is truthy and evaluates only the argument it yields.',
                 note='Known findings: `not x` is not evaluated for lists, maps, strings, colors, !important and unicode ranges (7 listed obligations). Nested values (Paren, lists of values) and the parser-level handling of `not` are not covered.',
                 tech='Kani proof harnesses per value constructor; K-snippets of evaluator ranges',
                 ref='DESIGN.md §5 C14, §11'),
@@ -64,7 +64,7 @@ CLAIMS = {
                 ref='DESIGN.md §5 C22, §11'),
     'C26': dict(cat='proof',
                 text='The index arithmetic of string.slice and string.insert — how a 1-based, possibly negative Sass index becomes a code-point offset, and how many code points are taken — on the statement ranges extracted from the closures in sass/functions/string.rs each run: for EVERY i64 index pair and EVERY string length the selected positions are exactly i through j (empty when the range is empty), and insert puts the text before position i clamped to the string (loop-free, complete).',
-                note='string.length / index (chars().count(), find), the case functions, the quotedness of results and the application of the offsets by chars().skip().take() are not covered (iterator/str code out of reach of both verifiers).',
+                note='Beyond the index arithmetic, the complete bodies of slice / insert / index / length / to-upper-case / to-lower-case are run on concrete strings only (code points vs bytes, quotedness, first match, ASCII-only case change): bounded. split, unique-id, quote / unquote are not covered.',
                 tech='Kani proof harnesses on K-snippets (ranges of the closures extracted each run)',
                 ref='DESIGN.md §11'),
     'C28': dict(cat='proof',
@@ -83,8 +83,8 @@ CLAIMS = {
                 tech='Kani function contracts + proof harnesses over all f64; K-snippet of deg_mod',
                 ref='DESIGN.md §5 C31, §11'),
     'C32': dict(cat='proof',
-                text='Laws of the Color methods the Sass functions call: invert∘invert = id (rgb, hsl), invert weight 0, rotate_hue(360) = id, rotate_hue(d) then (-d) for |d| <= 360, alpha untouched, set_alpha clamping; and the channel arithmetic of lighten, darken, saturate, desaturate, grayscale and complement on ranges extracted from the closures each run: the channel moves by exactly the amount, clamped to 0..100%, other channels unchanged, darken undoes lighten when nothing was clamped (all f64 in range, complete).',
-                note='mix, adjust, scale, change, opacify/transparentize closures are not covered. Hue laws rest on the assumed (unchecked) contract of deg_mod, which is exact only on [-360, 720].',
+                text='Laws of the Color methods the Sass functions call: invert∘invert = id (rgb, hsl), invert weight 0, rotate_hue(360) = id, rotate_hue(d) then (-d) for |d| <= 360, alpha untouched, set_alpha clamping; and the channel arithmetic of lighten, darken, saturate, desaturate, grayscale and complement on ranges extracted from the closures each run: the channel moves by exactly the amount, clamped to 0..100%, other channels unchanged, darken undoes lighten when nothing was clamped; opacify / transparentize move alpha by exactly the amount, clamped, and undo each other; mix: weight 100% / 0% give the first / second color (all f64 in range, complete); mix(c, c, 50%) is c (other weights: thorough-tier attempts).',
+                note='adjust, scale, change and invert closures are not covered. Hue laws rest on the assumed (unchecked) contract of deg_mod, which is exact only on [-360, 720].',
                 tech='Kani proof harnesses over all f64; K-snippets of the color function closures',
                 ref='DESIGN.md §5 C32, §11'),
 }
